@@ -90,7 +90,7 @@ static void child(void* arg)
   }
   unlink(path);
   printf(" L=%s", errname(rc));
-  if (!file) printf(" T=%zu:%016" PRIx64, rd.ncalls, fnv64((const uint8_t*) sb_str(&rd.trace), rd.trace.len));
+  if (!file) { SB tr = {0}; rle_trace(sb_str(&rd.trace), &tr); printf(" T=%s", sb_str(&tr)); sb_free(&tr); }
   fflush(stdout);
   if (rc == ERROR_SUCCESS && loaded == NULL) { printf(" LOADED=NULL"); rc = -1; }
   if (rc == ERROR_SUCCESS)
